@@ -118,6 +118,9 @@ def cases(tier, seed):
     for form in ("two-blocks", "single-block", "single-block-mask", "two-blocks-fd"):
         for pert in ("jc", "rabi", "jc+z"):
             out.append(dict(kind="matrix", form=form, pert=pert, order=2 if qk else 3))
+    # four internal levels in two blocks of two (operator-valued 2x2 blocks)
+    for variant in ("plain", "fd0", "single"):
+        out.append(dict(kind="matrix4", variant=variant, order=2))
     # internal levels with identical H_0 (degenerate pairs are kept), asymmetric number-changing coupling
     for pert in ("asym", "asym2"):
         out.append(dict(kind="matrix", form="single-block", pert=pert, order=2, degenerate=True))
@@ -235,7 +238,7 @@ def run_case(case):
     try:
         with warnings.catch_warnings():
             warnings.simplefilter("ignore")
-            V, nt, outcome, stats = (run_scalar if case["kind"] == "scalar" else run_matrix)(case)
+            V, nt, outcome, stats = {"scalar": run_scalar, "matrix": run_matrix, "matrix4": run_matrix4}[case["kind"]](case)
     except Exception as e:  # noqa: BLE001
         import traceback
 
@@ -403,3 +406,79 @@ def run_matrix(case):
     nt = compare_series(sp, lib, num, orders, interior, V, label, matdim=2)
     identities(sp, lib, {0: h0m, 1: h1m}, orders, interior, V, label, matdim=2)
     return V, nt, "ok" if not V else "violation", dict(interior_states=int(interior.size) * 2, elements=3 * len(orders))
+
+
+def run_matrix4(case):
+    """Four internal levels coupled to one boson; blocks of two internal levels each."""
+    import sympy
+    from sympy.physics.quantum import Dagger
+
+    from pymablock import block_diagonalize
+    from pymablock.number_ordered_form import NumberOperator
+    from pymablock.series import one, zero
+
+    a = mk()["a"]
+    N = NumberOperator(a)
+    R = sympy.Rational
+    order = case["order"]
+    offs = [R(0), R(3, 5), R(21, 10), R(17, 5)]
+    h = N + N**2 / 9
+    H0 = sympy.diag(*[h + e for e in offs])
+    coef = {(0, 1): (1, 2), (0, 2): (2, -1), (0, 3): (1, 3), (1, 2): (-2, 1), (1, 3): (3, 1), (2, 3): (1, -1)}
+    H1 = sympy.zeros(4, 4)
+    for i in range(4):
+        H1[i, i] = (i + 1) * (a + Dagger(a))
+    for (i, j), (x, y) in coef.items():
+        H1[i, j] = x * a + y * Dagger(a)
+        H1[j, i] = x * Dagger(a) + y * a
+    D, margin = fock_D([a], order, 1)
+    sp = Space([a], D=D)
+    n = sp.dim
+    h0m = to_matrix(sp, H0, 4)
+    h1m = to_matrix(sp, H1, 4)
+    levels = np.real(np.diag(h0m))
+    gaps = np.abs(levels.reshape(-1, 1) - levels.reshape(1, -1)) + np.eye(4 * n)
+    if gaps.min() < 1e-6:
+        return [], False, "skipped-degenerate", dict(skipped_degenerate=1)
+    kwargs, nkwargs = {}, {}
+    if case["variant"] == "single":
+        sizes = [4]
+    else:
+        sizes = [2, 2]
+        kwargs["subspace_indices"] = [0, 0, 1, 1]
+        nkwargs["subspace_indices"] = [0] * (2 * n) + [1] * (2 * n)
+        if case["variant"] == "fd0":
+            kwargs["fully_diagonalize"] = (0,)
+            nkwargs["fully_diagonalize"] = (0,)
+    outs = block_diagonalize([H0, H1], **kwargs)
+    nouts = block_diagonalize([np.diag(levels), h1m], **nkwargs)
+    orders = list(range(order + 1))
+    off = [0] + list(np.cumsum(sizes))
+
+    def assemble(s_, k, numeric):
+        out = np.zeros((4 * n, 4 * n), complex)
+        for i in range(len(sizes)):
+            for j in range(len(sizes)):
+                v = s_[i, j, k]
+                if v is zero:
+                    continue
+                rows, cols = sizes[i] * n, sizes[j] * n
+                if v is one:
+                    blk = np.eye(rows)
+                elif numeric:
+                    blk = np.asarray(v.toarray() if hasattr(v, "toarray") else v, dtype=complex)
+                else:
+                    blk = to_matrix(sp, v, sizes[i]) if v.shape[0] == v.shape[1] else None
+                    if blk is None:
+                        raise ValueError("non-square operator block")
+                out[off[i] * n : off[i + 1] * n, off[j] * n : off[j + 1] * n] = blk
+        return out
+
+    lib = {nm: {k: assemble(s_, k, False) for k in orders} for nm, s_ in zip(("H_tilde", "U", "U_adj"), outs)}
+    num = {nm: {k: assemble(s_, k, True) for k in orders} for nm, s_ in zip(("H_tilde", "U", "U_adj"), nouts)}
+    interior = sp.interior([margin], [margin])
+    V = []
+    label = f"four internal levels ({case['variant']})"
+    nt = compare_series(sp, lib, num, orders, interior, V, label, matdim=4)
+    identities(sp, lib, {0: h0m, 1: h1m}, orders, interior, V, label, matdim=4)
+    return V, nt, "ok" if not V else "violation", dict(interior_states=int(interior.size) * 4, elements=3 * len(orders))
